@@ -74,6 +74,18 @@ def build_layout(root: str, variant: dict):
         ("l", "sb/\uff44\uff4f\uff43\uff53", os.path.join(root, "out/secretdir") if absl else "../out/secretdir"),
         ("l", "sb/cafe\u0301", os.path.join(root, "out/secretdir") if absl else "../out/secretdir"),
         ("l", "sb/\u212bdir", "dir"), ("l", "sb/\ufb01le.oct.md", os.path.join(root, "out/secret.oct.md") if absl else "../out/secret.oct.md"),
+        # link names that a string SANITISER changes (separator conversion, strip, case folding, variable expansion, trailing
+        # dots, percent-decoding): a layer that tidies the string before validating examines a name that does not exist
+        # (or a harmless one) while the file system follows the real link
+        ("l", "sb/up\\load", os.path.join(root, "out/secretdir") if absl else "../out/secretdir"),
+        ("l", "sb/notes\\copy.oct.md", os.path.join(root, "out/secret.oct.md") if absl else "../out/secret.oct.md"),
+        ("l", "sb/ lnsp", os.path.join(root, "out/secretdir") if absl else "../out/secretdir"),
+        ("l", "sb/lnsp2 ", os.path.join(root, "out/secretdir") if absl else "../out/secretdir"),
+        ("l", "sb/LnCase", os.path.join(root, "out/secretdir") if absl else "../out/secretdir"),
+        ("l", "sb/$OVX", os.path.join(root, "out/secretdir") if absl else "../out/secretdir"), ("d", "sb/plainx", 0o755),
+        ("l", "sb/lnd.", os.path.join(root, "out/secretdir") if absl else "../out/secretdir"),
+        ("l", "sb/%41bc", os.path.join(root, "out/secretdir") if absl else "../out/secretdir"),
+        ("l", "sb/ lnf.oct.md", os.path.join(root, "out/secret.oct.md") if absl else "../out/secret.oct.md"),
         # home with a standards cache
         ("d", "home/.octave/standards", 0o755),
         ("f", f"home/.octave/standards/{GOOD_DIGEST[:16]}.oct.md", GOOD_STD, 0o644),
@@ -124,7 +136,8 @@ def _schema_text(name: str) -> bytes:
 
 
 DIR_SEGS = ["docs", "dir", "dir/deep", "newdir", ".", "..", "ln_dir_in", "ln_dir_out", "dangling_dir", "chain1", "loop", "loop/..",
-            "docs/ln_up", "docs/ln_out", "", "vocab", "~", "$HOME", "${HOME}", "~root", "~/ln_out", "~/plain", "~/plain/..", "$OVHOME/ln_out", "\uff44\uff4f\uff43\uff53", "cafe\u0301", "\u212bdir", "\uff0e\uff0e", "\u2024\u2024"]
+            "docs/ln_up", "docs/ln_out", "", "vocab", "~", "$HOME", "${HOME}", "~root", "~/ln_out", "~/plain", "~/plain/..", "$OVHOME/ln_out", "\uff44\uff4f\uff43\uff53", "cafe\u0301", "\u212bdir", "\uff0e\uff0e", "\u2024\u2024",
+            "up\\load", " lnsp", "lnsp2 ", "LnCase", "$OVX", "lnd.", "%41bc"]
 FINAL_SEGS = ["a.oct.md", "new.oct.md", "new.octave", "new.md", "b.md", "c.octave", "top.oct.md", "new.txt", "notes.txt",
               "new.oct.md.bak", "new.tar.md", "new.oct.MD", "NEW.OCT.MD", "new.md.", "new", "new.oct.md/", "ln_file_in.oct.md",
               "ln_file_out.oct.md", "dangling.oct.md", "dangling_out.oct.md", "dangling2.md", "loop.oct.md", "", "a\x00b.oct.md",
@@ -132,7 +145,8 @@ FINAL_SEGS = ["a.oct.md", "new.oct.md", "new.octave", "new.md", "b.md", "c.octav
               "new.m\u0501", "new.oct.md\u200b", "new.\uff2d\uff24", "new.md\n", "new.md\t", "x..md", ".oct.md", "new.octave.", "new.OCTAVE",
               "new.oct.md.", "new.md/.", "new.md/..", "new.txt/../new.md", "new.md\\", "new.oct", "new.octave.txt", "new.mdx", "newmd",
               "new.oct.md~", "new.md;x.txt", "new.md%00.txt", "caf\u00e9.md", "cafe\u0301.md",
-              "~.oct.md", "ln_file.oct.md", " new.oct.md", "new.oct.md\r", "$OVHOME.oct.md", "note.oct.\uff4d\uff44", "note.\uff4d\uff44", "note\uff0emd", "note.m\u217e", "\ufb01le.oct.md", "note.md\u0301", "note.oct\u2024md"]
+              "~.oct.md", "ln_file.oct.md", " new.oct.md", "new.oct.md\r", "$OVHOME.oct.md", "note.oct.\uff4d\uff44", "note.\uff4d\uff44", "note\uff0emd", "note.m\u217e", "\ufb01le.oct.md", "note.md\u0301", "note.oct\u2024md",
+              "notes\\copy.oct.md", " lnf.oct.md"]
 
 
 def gen_path(t: Tape) -> dict:
@@ -377,6 +391,7 @@ def run_path_case(case: dict, stats: Stats | None = None) -> dict:
     rec = Recorder(root)
     # HOME (and a variable of our own) point INTO the run root: an argument that gets '~' / '$VAR' expanded lands where we look
     os.environ["OVHOME"] = os.path.join(root, "home")
+    os.environ["OVX"] = "plainx"  # '$OVX' is ALSO the literal name of a link (see the layout)
     sim, a, resolved = rec.run(make_path_call(kind, path_str, root), cwd=cwd, home=os.path.join(root, "home"))
     snap1 = snapshot_m(root)
     d = diff_m(snap0, snap1)
